@@ -811,6 +811,19 @@ def ok_summary(pdb, fn):
     return res
 
 
+def err_condition(pdb, fn):
+    """For `fn f(..) -> Result` whose body is `if c { Err(..) } else { Ok(..) }`: the node c (None otherwise; the
+    reversed form `if c { Ok } else { Err }` is not summarised)."""
+    body = strip(fn["body"])
+    if body.get("k") == "If" and body.get("else") is not None and str(fn.get("output", "")).startswith("std::result::Result"):
+        th, el = strip(body["then"]), strip(body["else"])
+        def is_(e, nm):
+            return e.get("k") == "Call" and e["f"].get("k") == "Def" and str(e["f"].get("fn", "")).endswith(nm)
+        if is_(th, "Err") and is_(el, "Ok"):
+            return body["cond"]
+    return None
+
+
 def show(t, ctx=None):
     """Human-readable rendering of a term (for messages)."""
     k = t[0]
